@@ -19,6 +19,43 @@ UNARY = {'Vec<T>': 'Vec', 'VecDeque<T>': 'VecDeque', '[T]': 'Slice', 'PhantomDat
 NULLARY = {'String': 'String', 'str': 'Str', 'Duration': 'Duration'}
 
 
+def rules_from_probe(probe):
+    """rule kind per constructor from the native identity probe (rustc's own resolution of `<W<X> as TypeInfo>::Identity`)"""
+    nm = probe['names']; out = {}
+    for k, p in probe.items():
+        if k == 'names': continue
+        a, l = p['alias_arg'], p['leaf_arg']
+        if a == p['self_alias'] and l == p['self_leaf']: out[k] = 'self'
+        elif a == nm['String'] and l == nm['u8']: out[k] = 'arg'
+        elif a == nm['str'] and l == nm['u8']: out[k] = 'ident_arg'
+        elif a == '[%s]' % nm['String'] and l == '[%s]' % nm['u8']: out[k] = 'slice'
+        elif a == nm['unit_phantom'] and l == nm['unit_phantom']: out[k] = 'phantom'
+        elif a == nm['str'] and l == nm['str']: out[k] = 'str'
+        else: raise CheckInconclusive('identity probe: %s declares Identity %r / %r - rule not understood' % (k, a, l))
+    return out
+
+
+def build_algebra_from_rules(rule_kinds):
+    Ty = z3.Datatype('Ty')
+    Ty.declare('Leaf', ('leaf_id', z3.IntSort())); Ty.declare('Unit')
+    cons = {}
+    for s_, nm in list(WRAPPERS.items()) + list(UNARY.items()): Ty.declare(nm, ('arg_' + nm, Ty)); cons[s_] = nm
+    for s_, nm in NULLARY.items(): Ty.declare(nm); cons[s_] = nm
+    Ty = Ty.create()
+    ident = z3.RecFunction('ident', Ty, Ty)
+    t = z3.Const('t', Ty)
+    body = t
+    shown = {}
+    for nm, kind in rule_kinds.items():
+        if not hasattr(Ty, 'is_' + nm) or kind == 'self': continue
+        arg = getattr(Ty, 'arg_' + nm)(t) if hasattr(Ty, 'arg_' + nm) else None
+        rhs = {'arg': lambda: arg, 'ident_arg': lambda: ident(arg), 'slice': lambda: Ty.Slice(arg), 'phantom': lambda: Ty.Phantom(Ty.Unit), 'str': lambda: Ty.Str}[kind]()
+        shown[nm] = kind
+        body = z3.If(getattr(Ty, 'is_' + nm)(t), rhs, body)
+    z3.RecAddDefinition(ident, [t], body)
+    return Ty, ident, shown, cons
+
+
 def build_algebra(impls):
     """impls: [(self_full, identity_expr)] -> (Ty datatype, ident function definition, notes). Unknown shapes -> CheckInconclusive"""
     Ty = z3.Datatype('Ty')
@@ -152,9 +189,19 @@ def run_alias_algebra(ctx):
     seen, uniq = set(), []
     for s, i in impls:
         if (s, i) not in seen: seen.add((s, i)); uniq.append((s, i))
-    Ty, ident, rules, notes, (cons, rule_kinds) = build_algebra(uniq)
-    ctx.notes += notes[:6]
-    ctx.notes.append('identity rules read from the source: %s' % {k: str(v) for k, v in rules.items()})
+    # primary source of the rules: rustc's own resolution of the Identity projections, probed natively (robust to macros / refactors);
+    # the textual scan of the impl blocks is kept as a cross-check when it can read them
+    probe = ctx.get_native().ask({'op': 'identity_probe'})
+    if 'names' not in probe: raise CheckInconclusive('identity probe failed: %s' % json.dumps(probe)[:300])
+    rule_kinds = rules_from_probe(probe)
+    Ty, ident, shown, cons = build_algebra_from_rules(rule_kinds)
+    ctx.notes.append('identity rules (native probe of <W<X> as TypeInfo>::Identity): %s' % shown)
+    try:
+        _, _, _, _, (_, scanned) = build_algebra(uniq)
+        diff = {k: (v, rule_kinds.get(k)) for k, v in scanned.items() if rule_kinds.get(k, 'self') != v}
+        if diff: ctx.notes.append('textual scan of impl blocks disagrees with the probe (probe wins): %s' % diff)
+    except CheckInconclusive as e:
+        ctx.notes.append('textual scan of the impl blocks not possible (%s); rules come from the probe only' % str(e)[:120])
     cex = []
     t0 = time.time()
     D = 6 if ctx.thorough() else 4
